@@ -4367,8 +4367,114 @@ let template =
     (XO (XO (XO (XI (XI XH))))))) :: ((Npos (XO (XI (XO (XO (XO
     XH)))))) :: ((Npos (XO (XI (XO XH)))) :: ((Npos (XO (XO (XO (XO (XO
     XH)))))) :: ((Npos (XO (XO (XO (XO (XO XH)))))) :: ((Npos (XO (XO (XO (XO
-    (XO XH)))))) :: ((Npos (XO (XO (XO (XO (XO XH)))))) :: ((Npos (XI (XO (XO
-    (XI (XO (XI XH))))))) :: ((Npos (XO (XI (XI (XO (XO (XI
+    (XO XH)))))) :: ((Npos (XO (XO (XO (XO (XO XH)))))) :: ((Npos (XI (XI (XO
+    (XO (XO XH)))))) :: ((Npos (XO (XO (XO (XO (XO XH)))))) :: ((Npos (XO (XO
+    (XO (XI (XO XH)))))) :: ((Npos (XI (XI (XI (XO (XO (XI
+    XH))))))) :: ((Npos (XO (XI (XO (XO (XI (XI XH))))))) :: ((Npos (XI (XO
+    (XI (XO (XO (XI XH))))))) :: ((Npos (XO (XO (XO (XO (XI (XI
+    XH))))))) :: ((Npos (XO (XO (XO (XO (XO XH)))))) :: ((Npos (XO (XI (XO
+    (XO (XI (XI XH))))))) :: ((Npos (XI (XO (XI (XO (XO (XI
+    XH))))))) :: ((Npos (XI (XO (XO (XO (XO (XI XH))))))) :: ((Npos (XO (XO
+    (XI (XO (XO (XI XH))))))) :: ((Npos (XI (XI (XO (XO (XI (XI
+    XH))))))) :: ((Npos (XO (XO (XO (XO (XO XH)))))) :: ((Npos (XO (XO (XI
+    (XO (XI (XI XH))))))) :: ((Npos (XI (XI (XI (XI (XO (XI
+    XH))))))) :: ((Npos (XO (XO (XO (XO (XO XH)))))) :: ((Npos (XO (XO (XI
+    (XO (XI (XI XH))))))) :: ((Npos (XO (XO (XO (XI (XO (XI
+    XH))))))) :: ((Npos (XI (XO (XI (XO (XO (XI XH))))))) :: ((Npos (XO (XO
+    (XO (XO (XO XH)))))) :: ((Npos (XI (XO (XI (XO (XO (XI
+    XH))))))) :: ((Npos (XO (XI (XI (XI (XO (XI XH))))))) :: ((Npos (XO (XO
+    (XI (XO (XO (XI XH))))))) :: ((Npos (XO (XI (XO (XI (XI
+    XH)))))) :: ((Npos (XO (XO (XO (XO (XO XH)))))) :: ((Npos (XI (XI (XO (XO
+    (XI (XI XH))))))) :: ((Npos (XO (XO (XI (XO (XI (XI XH))))))) :: ((Npos
+    (XI (XI (XI (XI (XO (XI XH))))))) :: ((Npos (XO (XO (XO (XO (XI (XI
+    XH))))))) :: ((Npos (XO (XO (XO (XO (XI (XI XH))))))) :: ((Npos (XI (XO
+    (XO (XI (XO (XI XH))))))) :: ((Npos (XO (XI (XI (XI (XO (XI
+    XH))))))) :: ((Npos (XI (XI (XI (XO (XO (XI XH))))))) :: ((Npos (XO (XO
+    (XO (XO (XO XH)))))) :: ((Npos (XI (XO (XO (XO (XO (XI
+    XH))))))) :: ((Npos (XO (XO (XI (XO (XI (XI XH))))))) :: ((Npos (XO (XO
+    (XO (XO (XO XH)))))) :: ((Npos (XO (XO (XI (XO (XI (XI
+    XH))))))) :: ((Npos (XO (XO (XO (XI (XO (XI XH))))))) :: ((Npos (XI (XO
+    (XI (XO (XO (XI XH))))))) :: ((Npos (XO (XO (XO (XO (XO
+    XH)))))) :: ((Npos (XO (XI (XI (XO (XO (XI XH))))))) :: ((Npos (XI (XO
+    (XO (XI (XO (XI XH))))))) :: ((Npos (XO (XI (XO (XO (XI (XI
+    XH))))))) :: ((Npos (XI (XI (XO (XO (XI (XI XH))))))) :: ((Npos (XO (XO
+    (XI (XO (XI (XI XH))))))) :: ((Npos (XO (XO (XO (XO (XO
+    XH)))))) :: ((Npos (XI (XO (XI (XI (XO (XI XH))))))) :: ((Npos (XI (XO
+    (XO (XO (XO (XI XH))))))) :: ((Npos (XO (XO (XI (XO (XI (XI
+    XH))))))) :: ((Npos (XI (XI (XO (XO (XO (XI XH))))))) :: ((Npos (XO (XO
+    (XO (XI (XO (XI XH))))))) :: ((Npos (XO (XO (XO (XO (XO
+    XH)))))) :: ((Npos (XI (XI (XI (XO (XI (XI XH))))))) :: ((Npos (XI (XI
+    (XI (XI (XO (XI XH))))))) :: ((Npos (XI (XO (XI (XO (XI (XI
+    XH))))))) :: ((Npos (XO (XO (XI (XI (XO (XI XH))))))) :: ((Npos (XO (XO
+    (XI (XO (XO (XI XH))))))) :: ((Npos (XO (XO (XO (XO (XO
+    XH)))))) :: ((Npos (XI (XI (XO (XI (XO (XI XH))))))) :: ((Npos (XI (XO
+    (XO (XI (XO (XI XH))))))) :: ((Npos (XO (XO (XI (XI (XO (XI
+    XH))))))) :: ((Npos (XO (XO (XI (XI (XO (XI XH))))))) :: ((Npos (XO (XO
+    (XO (XO (XO XH)))))) :: ((Npos (XO (XO (XO (XO (XO (XI
+    XH))))))) :: ((Npos (XO (XO (XI (XO (XO (XI XH))))))) :: ((Npos (XI (XO
+    (XI (XO (XO (XI XH))))))) :: ((Npos (XI (XI (XO (XO (XO (XI
+    XH))))))) :: ((Npos (XO (XO (XI (XI (XO (XI XH))))))) :: ((Npos (XI (XO
+    (XO (XO (XO (XI XH))))))) :: ((Npos (XO (XI (XO (XO (XI (XI
+    XH))))))) :: ((Npos (XI (XO (XI (XO (XO (XI XH))))))) :: ((Npos (XO (XO
+    (XO (XO (XO XH)))))) :: ((Npos (XI (XO (XI (XI (XO XH)))))) :: ((Npos (XO
+    (XO (XO (XO (XI (XI XH))))))) :: ((Npos (XO (XO (XO (XO (XO (XI
+    XH))))))) :: ((Npos (XO (XI (XO XH)))) :: ((Npos (XO (XO (XO (XO (XO
+    XH)))))) :: ((Npos (XO (XO (XO (XO (XO XH)))))) :: ((Npos (XO (XO (XO (XO
+    (XO XH)))))) :: ((Npos (XO (XO (XO (XO (XO XH)))))) :: ((Npos (XI (XI (XO
+    (XO (XO XH)))))) :: ((Npos (XO (XO (XO (XO (XO XH)))))) :: ((Npos (XI (XI
+    (XI (XO (XI (XI XH))))))) :: ((Npos (XI (XO (XO (XI (XO (XI
+    XH))))))) :: ((Npos (XO (XO (XI (XO (XI (XI XH))))))) :: ((Npos (XO (XO
+    (XO (XI (XO (XI XH))))))) :: ((Npos (XO (XO (XO (XO (XO
+    XH)))))) :: ((Npos (XI (XI (XO (XO (XI (XO XH))))))) :: ((Npos (XI (XO
+    (XO (XI (XO (XO XH))))))) :: ((Npos (XI (XI (XI (XO (XO (XO
+    XH))))))) :: ((Npos (XO (XO (XO (XO (XI (XO XH))))))) :: ((Npos (XI (XO
+    (XO (XI (XO (XO XH))))))) :: ((Npos (XO (XO (XO (XO (XI (XO
+    XH))))))) :: ((Npos (XI (XO (XI (XO (XO (XO XH))))))) :: ((Npos (XO (XO
+    (XI (XI (XO XH)))))) :: ((Npos (XO (XO (XO (XO (XO XH)))))) :: ((Npos (XI
+    (XI (XI (XO (XI (XI XH))))))) :: ((Npos (XO (XO (XO (XI (XO (XI
+    XH))))))) :: ((Npos (XI (XO (XO (XI (XO (XI XH))))))) :: ((Npos (XI (XI
+    (XO (XO (XO (XI XH))))))) :: ((Npos (XO (XO (XO (XI (XO (XI
+    XH))))))) :: ((Npos (XO (XO (XO (XO (XO XH)))))) :: ((Npos (XO (XI (XI
+    (XO (XO (XI XH))))))) :: ((Npos (XI (XO (XO (XO (XO (XI
+    XH))))))) :: ((Npos (XI (XO (XO (XI (XO (XI XH))))))) :: ((Npos (XO (XO
+    (XI (XI (XO (XI XH))))))) :: ((Npos (XI (XI (XO (XO (XI (XI
+    XH))))))) :: ((Npos (XO (XO (XO (XO (XO XH)))))) :: ((Npos (XO (XO (XI
+    (XO (XI (XI XH))))))) :: ((Npos (XO (XO (XO (XI (XO (XI
+    XH))))))) :: ((Npos (XI (XO (XI (XO (XO (XI XH))))))) :: ((Npos (XO (XO
+    (XO (XO (XO XH)))))) :: ((Npos (XO (XO (XO (XO (XI (XI
+    XH))))))) :: ((Npos (XI (XO (XO (XI (XO (XI XH))))))) :: ((Npos (XO (XO
+    (XO (XO (XI (XI XH))))))) :: ((Npos (XI (XO (XI (XO (XO (XI
+    XH))))))) :: ((Npos (XO (XO (XI (XI (XO (XI XH))))))) :: ((Npos (XI (XO
+    (XO (XI (XO (XI XH))))))) :: ((Npos (XO (XI (XI (XI (XO (XI
+    XH))))))) :: ((Npos (XI (XO (XI (XO (XO (XI XH))))))) :: ((Npos (XO (XO
+    (XO (XO (XO XH)))))) :: ((Npos (XI (XI (XI (XO (XI (XI
+    XH))))))) :: ((Npos (XO (XO (XO (XI (XO (XI XH))))))) :: ((Npos (XI (XO
+    (XI (XO (XO (XI XH))))))) :: ((Npos (XO (XI (XI (XI (XO (XI
+    XH))))))) :: ((Npos (XO (XO (XO (XO (XO XH)))))) :: ((Npos (XO (XO (XI
+    (XO (XI (XI XH))))))) :: ((Npos (XO (XO (XO (XI (XO (XI
+    XH))))))) :: ((Npos (XI (XO (XI (XO (XO (XI XH))))))) :: ((Npos (XO (XO
+    (XO (XO (XO XH)))))) :: ((Npos (XO (XO (XI (XO (XI (XI
+    XH))))))) :: ((Npos (XI (XO (XI (XO (XO (XI XH))))))) :: ((Npos (XI (XI
+    (XO (XO (XI (XI XH))))))) :: ((Npos (XO (XO (XI (XO (XI (XI
+    XH))))))) :: ((Npos (XO (XO (XO (XO (XO XH)))))) :: ((Npos (XI (XI (XO
+    (XO (XO (XI XH))))))) :: ((Npos (XI (XO (XO (XO (XO (XI
+    XH))))))) :: ((Npos (XI (XI (XO (XO (XI (XI XH))))))) :: ((Npos (XI (XO
+    (XI (XO (XO (XI XH))))))) :: ((Npos (XO (XO (XO (XO (XO
+    XH)))))) :: ((Npos (XO (XO (XO (XI (XO (XI XH))))))) :: ((Npos (XI (XO
+    (XO (XO (XO (XI XH))))))) :: ((Npos (XI (XI (XO (XO (XI (XI
+    XH))))))) :: ((Npos (XO (XO (XO (XO (XO XH)))))) :: ((Npos (XI (XI (XO
+    (XO (XI (XI XH))))))) :: ((Npos (XI (XO (XI (XO (XO (XI
+    XH))))))) :: ((Npos (XO (XO (XI (XO (XI (XI XH))))))) :: ((Npos (XO (XO
+    (XO (XO (XO XH)))))) :: ((Npos (XO (XO (XO (XO (XI (XI
+    XH))))))) :: ((Npos (XI (XO (XO (XI (XO (XI XH))))))) :: ((Npos (XO (XO
+    (XO (XO (XI (XI XH))))))) :: ((Npos (XI (XO (XI (XO (XO (XI
+    XH))))))) :: ((Npos (XO (XI (XI (XO (XO (XI XH))))))) :: ((Npos (XI (XO
+    (XO (XO (XO (XI XH))))))) :: ((Npos (XI (XO (XO (XI (XO (XI
+    XH))))))) :: ((Npos (XO (XO (XI (XI (XO (XI XH))))))) :: ((Npos (XI (XO
+    (XO (XI (XO XH)))))) :: ((Npos (XO (XI (XO XH)))) :: ((Npos (XO (XO (XO
+    (XO (XO XH)))))) :: ((Npos (XO (XO (XO (XO (XO XH)))))) :: ((Npos (XO (XO
+    (XO (XO (XO XH)))))) :: ((Npos (XO (XO (XO (XO (XO XH)))))) :: ((Npos (XI
+    (XO (XO (XI (XO (XI XH))))))) :: ((Npos (XO (XI (XI (XO (XO (XI
     XH))))))) :: ((Npos (XO (XO (XO (XO (XO XH)))))) :: ((Npos (XI (XO (XO
     (XO (XO XH)))))) :: ((Npos (XO (XO (XO (XO (XO XH)))))) :: ((Npos (XO (XO
     (XI (XO (XO (XI XH))))))) :: ((Npos (XI (XO (XI (XO (XO (XI
@@ -4382,56 +4488,61 @@ let template =
     XH)))))) :: ((Npos (XI (XI (XI (XO (XO (XI XH))))))) :: ((Npos (XO (XI
     (XO (XO (XI (XI XH))))))) :: ((Npos (XI (XO (XI (XO (XO (XI
     XH))))))) :: ((Npos (XO (XO (XO (XO (XI (XI XH))))))) :: ((Npos (XO (XO
-    (XO (XO (XO XH)))))) :: ((Npos (XI (XO (XI (XI (XO XH)))))) :: ((Npos (XI
-    (XO (XO (XO (XI (XI XH))))))) :: ((Npos (XO (XO (XO (XO (XO
-    XH)))))) :: ((Npos (XO (XI (XO (XO (XO XH)))))) :: ((Npos (XO (XI (XI (XI
-    (XI (XO XH))))))) :: ((Npos (XO (XO (XI (XO (XO (XI XH))))))) :: ((Npos
-    (XI (XO (XI (XO (XO (XI XH))))))) :: ((Npos (XI (XI (XO (XO (XO (XI
-    XH))))))) :: ((Npos (XO (XO (XI (XI (XO (XI XH))))))) :: ((Npos (XI (XO
-    (XO (XO (XO (XI XH))))))) :: ((Npos (XO (XI (XO (XO (XI (XI
-    XH))))))) :: ((Npos (XI (XO (XI (XO (XO (XI XH))))))) :: ((Npos (XO (XO
-    (XO (XO (XO XH)))))) :: ((Npos (XO (XI (XO (XO (XO XH)))))) :: ((Npos (XI
-    (XI (XO (XI (XI XH)))))) :: ((Npos (XO (XO (XO (XO (XO XH)))))) :: ((Npos
-    (XO (XO (XI (XO (XI (XI XH))))))) :: ((Npos (XO (XO (XO (XI (XO (XI
-    XH))))))) :: ((Npos (XI (XO (XI (XO (XO (XI XH))))))) :: ((Npos (XO (XI
-    (XI (XI (XO (XI XH))))))) :: ((Npos (XO (XI (XO XH)))) :: ((Npos (XO (XO
+    (XO (XO (XO XH)))))) :: ((Npos (XO (XI (XO (XO (XO XH)))))) :: ((Npos (XO
+    (XI (XI (XI (XI (XO XH))))))) :: ((Npos (XO (XO (XI (XO (XO (XI
+    XH))))))) :: ((Npos (XI (XO (XI (XO (XO (XI XH))))))) :: ((Npos (XI (XI
+    (XO (XO (XO (XI XH))))))) :: ((Npos (XO (XO (XI (XI (XO (XI
+    XH))))))) :: ((Npos (XI (XO (XO (XO (XO (XI XH))))))) :: ((Npos (XO (XI
+    (XO (XO (XI (XI XH))))))) :: ((Npos (XI (XO (XI (XO (XO (XI
+    XH))))))) :: ((Npos (XO (XO (XO (XO (XO XH)))))) :: ((Npos (XO (XI (XO
+    (XO (XO XH)))))) :: ((Npos (XO (XO (XO (XO (XO XH)))))) :: ((Npos (XO (XI
+    (XI (XI (XI XH)))))) :: ((Npos (XI (XI (XI (XI (XO XH)))))) :: ((Npos (XO
+    (XO (XI (XO (XO (XI XH))))))) :: ((Npos (XI (XO (XI (XO (XO (XI
+    XH))))))) :: ((Npos (XO (XI (XI (XO (XI (XI XH))))))) :: ((Npos (XI (XI
+    (XI (XI (XO XH)))))) :: ((Npos (XO (XI (XI (XI (XO (XI
+    XH))))))) :: ((Npos (XI (XO (XI (XO (XI (XI XH))))))) :: ((Npos (XO (XO
+    (XI (XI (XO (XI XH))))))) :: ((Npos (XO (XO (XI (XI (XO (XI
+    XH))))))) :: ((Npos (XI (XI (XO (XI (XI XH)))))) :: ((Npos (XO (XO (XO
+    (XO (XO XH)))))) :: ((Npos (XO (XO (XI (XO (XI (XI XH))))))) :: ((Npos
+    (XO (XO (XO (XI (XO (XI XH))))))) :: ((Npos (XI (XO (XI (XO (XO (XI
+    XH))))))) :: ((Npos (XO (XI (XI (XI (XO (XI XH))))))) :: ((Npos (XO (XI
+    (XO XH)))) :: ((Npos (XO (XO (XO (XO (XO XH)))))) :: ((Npos (XO (XO (XO
+    (XO (XO XH)))))) :: ((Npos (XO (XO (XO (XO (XO XH)))))) :: ((Npos (XO (XO
     (XO (XO (XO XH)))))) :: ((Npos (XO (XO (XO (XO (XO XH)))))) :: ((Npos (XO
     (XO (XO (XO (XO XH)))))) :: ((Npos (XO (XO (XO (XO (XO XH)))))) :: ((Npos
-    (XO (XO (XO (XO (XO XH)))))) :: ((Npos (XO (XO (XO (XO (XO
-    XH)))))) :: ((Npos (XO (XO (XO (XO (XO XH)))))) :: ((Npos (XO (XO (XO (XO
-    (XO XH)))))) :: ((Npos (XI (XI (XI (XI (XI (XO XH))))))) :: ((Npos (XI
-    (XI (XI (XI (XI (XO XH))))))) :: ((Npos (XI (XI (XO (XO (XI (XO
-    XH))))))) :: ((Npos (XI (XI (XO (XO (XO (XO XH))))))) :: ((Npos (XO (XI
-    (XO (XO (XI (XO XH))))))) :: ((Npos (XI (XO (XI (XO (XI (XO
-    XH))))))) :: ((Npos (XO (XO (XI (XO (XI (XO XH))))))) :: ((Npos (XI (XI
-    (XI (XI (XI (XO XH))))))) :: ((Npos (XO (XO (XI (XO (XO (XO
-    XH))))))) :: ((Npos (XI (XO (XI (XO (XO (XO XH))))))) :: ((Npos (XI (XI
-    (XO (XO (XO (XO XH))))))) :: ((Npos (XO (XO (XI (XI (XO (XO
-    XH))))))) :: ((Npos (XI (XO (XO (XO (XO (XO XH))))))) :: ((Npos (XO (XI
-    (XO (XO (XI (XO XH))))))) :: ((Npos (XI (XO (XI (XO (XO (XO
-    XH))))))) :: ((Npos (XI (XI (XI (XI (XI (XO XH))))))) :: ((Npos (XO (XI
-    (XI (XO (XI (XO XH))))))) :: ((Npos (XI (XO (XO (XO (XO (XO
-    XH))))))) :: ((Npos (XO (XI (XO (XO (XI (XO XH))))))) :: ((Npos (XI (XI
-    (XO (XO (XI (XO XH))))))) :: ((Npos (XI (XI (XI (XI (XI (XO
-    XH))))))) :: ((Npos (XI (XI (XO (XO (XO (XO XH))))))) :: ((Npos (XI (XO
-    (XI (XI (XO (XO XH))))))) :: ((Npos (XO (XO (XI (XO (XO (XO
-    XH))))))) :: ((Npos (XI (XO (XI (XI (XI XH)))))) :: ((Npos (XO (XI (XO
-    (XO (XO XH)))))) :: ((Npos (XO (XO (XI (XO (XO (XI XH))))))) :: ((Npos
-    (XI (XO (XI (XO (XO (XI XH))))))) :: ((Npos (XI (XI (XO (XO (XO (XI
-    XH))))))) :: ((Npos (XO (XO (XI (XI (XO (XI XH))))))) :: ((Npos (XI (XO
-    (XO (XO (XO (XI XH))))))) :: ((Npos (XO (XI (XO (XO (XI (XI
-    XH))))))) :: ((Npos (XI (XO (XI (XO (XO (XI XH))))))) :: ((Npos (XO (XO
+    (XO (XO (XO (XO (XO XH)))))) :: ((Npos (XI (XI (XI (XI (XI (XO
+    XH))))))) :: ((Npos (XI (XI (XI (XI (XI (XO XH))))))) :: ((Npos (XI (XI
+    (XO (XO (XI (XO XH))))))) :: ((Npos (XI (XI (XO (XO (XO (XO
+    XH))))))) :: ((Npos (XO (XI (XO (XO (XI (XO XH))))))) :: ((Npos (XI (XO
+    (XI (XO (XI (XO XH))))))) :: ((Npos (XO (XO (XI (XO (XI (XO
+    XH))))))) :: ((Npos (XI (XI (XI (XI (XI (XO XH))))))) :: ((Npos (XO (XO
+    (XI (XO (XO (XO XH))))))) :: ((Npos (XI (XO (XI (XO (XO (XO
+    XH))))))) :: ((Npos (XI (XI (XO (XO (XO (XO XH))))))) :: ((Npos (XO (XO
+    (XI (XI (XO (XO XH))))))) :: ((Npos (XI (XO (XO (XO (XO (XO
+    XH))))))) :: ((Npos (XO (XI (XO (XO (XI (XO XH))))))) :: ((Npos (XI (XO
+    (XI (XO (XO (XO XH))))))) :: ((Npos (XI (XI (XI (XI (XI (XO
+    XH))))))) :: ((Npos (XO (XI (XI (XO (XI (XO XH))))))) :: ((Npos (XI (XO
+    (XO (XO (XO (XO XH))))))) :: ((Npos (XO (XI (XO (XO (XI (XO
+    XH))))))) :: ((Npos (XI (XI (XO (XO (XI (XO XH))))))) :: ((Npos (XI (XI
+    (XI (XI (XI (XO XH))))))) :: ((Npos (XI (XI (XO (XO (XO (XO
+    XH))))))) :: ((Npos (XI (XO (XI (XI (XO (XO XH))))))) :: ((Npos (XO (XO
+    (XI (XO (XO (XO XH))))))) :: ((Npos (XI (XO (XI (XI (XI
+    XH)))))) :: ((Npos (XO (XI (XO (XO (XO XH)))))) :: ((Npos (XO (XO (XI (XO
+    (XO (XI XH))))))) :: ((Npos (XI (XO (XI (XO (XO (XI XH))))))) :: ((Npos
+    (XI (XI (XO (XO (XO (XI XH))))))) :: ((Npos (XO (XO (XI (XI (XO (XI
+    XH))))))) :: ((Npos (XI (XO (XO (XO (XO (XI XH))))))) :: ((Npos (XO (XI
+    (XO (XO (XI (XI XH))))))) :: ((Npos (XI (XO (XI (XO (XO (XI
+    XH))))))) :: ((Npos (XO (XO (XO (XO (XO XH)))))) :: ((Npos (XI (XO (XI
+    (XI (XO XH)))))) :: ((Npos (XO (XO (XO (XO (XI (XI XH))))))) :: ((Npos
+    (XO (XO (XO (XO (XO XH)))))) :: ((Npos (XO (XO (XI (XI (XI (XI
+    XH))))))) :: ((Npos (XO (XO (XO (XO (XO XH)))))) :: ((Npos (XI (XI (XO
+    (XO (XI (XI XH))))))) :: ((Npos (XI (XO (XI (XO (XO (XI
+    XH))))))) :: ((Npos (XO (XO (XI (XO (XO (XI XH))))))) :: ((Npos (XO (XO
     (XO (XO (XO XH)))))) :: ((Npos (XI (XO (XI (XI (XO XH)))))) :: ((Npos (XO
-    (XO (XO (XO (XI (XI XH))))))) :: ((Npos (XO (XO (XO (XO (XO
-    XH)))))) :: ((Npos (XO (XO (XI (XI (XI (XI XH))))))) :: ((Npos (XO (XO
-    (XO (XO (XO XH)))))) :: ((Npos (XI (XI (XO (XO (XI (XI
-    XH))))))) :: ((Npos (XI (XO (XI (XO (XO (XI XH))))))) :: ((Npos (XO (XO
-    (XI (XO (XO (XI XH))))))) :: ((Npos (XO (XO (XO (XO (XO
-    XH)))))) :: ((Npos (XI (XO (XI (XI (XO XH)))))) :: ((Npos (XO (XI (XO (XO
-    (XI (XI XH))))))) :: ((Npos (XI (XO (XI (XO (XO (XI XH))))))) :: ((Npos
-    (XO (XO (XO (XO (XO XH)))))) :: ((Npos (XI (XI (XI (XO (XO
-    XH)))))) :: ((Npos (XI (XI (XO (XO (XI (XI XH))))))) :: ((Npos (XI (XI
-    (XI (XI (XO XH)))))) :: ((Npos (XO (XI (XI (XI (XI (XO
+    (XI (XO (XO (XI (XI XH))))))) :: ((Npos (XI (XO (XI (XO (XO (XI
+    XH))))))) :: ((Npos (XO (XO (XO (XO (XO XH)))))) :: ((Npos (XI (XI (XI
+    (XO (XO XH)))))) :: ((Npos (XI (XI (XO (XO (XI (XI XH))))))) :: ((Npos
+    (XI (XI (XI (XI (XO XH)))))) :: ((Npos (XO (XI (XI (XI (XI (XO
     XH))))))) :: ((Npos (XO (XO (XO (XI (XO XH)))))) :: ((Npos (XI (XI (XO
     (XI (XI (XO XH))))))) :: ((Npos (XI (XO (XO (XO (XO (XO
     XH))))))) :: ((Npos (XI (XO (XI (XI (XO XH)))))) :: ((Npos (XO (XI (XO
@@ -5448,7 +5559,7 @@ let template =
     (XO (XI (XO (XI XH))))))) :: ((Npos (XI (XI (XI (XI (XO (XI
     XH))))))) :: ((Npos (XO (XI (XI (XI (XO (XI XH))))))) :: ((Npos (XI (XO
     (XI (XI (XI (XI XH))))))) :: ((Npos (XO (XI (XO
-    XH)))) :: []))))))))))))))))))))))))))))))))))))))))))))))))))))))))))))))))))))))))))))))))))))))))))))))))))))))))))))))))))))))))))))))))))))))))))))))))))))))))))))))))))))))))))))))))))))))))))))))))))))))))))))))))))))))))))))))))))))))))))))))))))))))))))))))))))))))))))))))))))))))))))))))))))))))))))))))))))))))))))))))))))))))))))))))))))))))))))))))))))))))))))))))))))))))))))))))))))))))))))))))))))))))))))))))))))))))))))))))))))))))))))))))))))))))))))))))))))))))))))))))))))))))))))))))))))))))))))))))))))))))))))))))))))))))))))))))))))))))))))))))))))))))))))))))))))))))))))))))))))))))))))))))))))))))))))))))))))))))))))))))))))))))))))))))))))))))))))))))))))))))))))))))))))))))))))))))))))))))))))))))))))))))))))))))))))))))))))))))))))))))))))))))))))))))))))))))))))))))))))))))))))))))))))))))))))))))))))))))))))))))))))))))))))))))))))))))))))))))))))))))))))))))))))))))))))))))))))))))))))))))))))))))))))))))))))))))))))))))))))))))))))))))))))))))))))))))))))))))))))))))))))))))))))))))))))))))))))))))))))))))))))))))))))))))))))))))))))))))))))))))))))))))))))))))))))))))))))))))))))))))))))))))))))))))))))))))))))))))))))))))))))))))))))))))))))))))))))))))))))))))))))))))))))))))))))))))))))))))))))))))))))))))))))))))))))))))))))))))))))))))))))))))))))))))))))))))))))))))))))))))))))))))))))))))))))))))))))))))))))))))))))))))))))))))))))))))))))))))))))))))))))))))))))))))))))))))))))))))))))))))))))))))))))))))))))))))))))))))))))))))))))))))))))))))))))))))))))))))))))))))))))))))))))))))))))))))))))))))))))))))))))))))))))))))))))))))))))))))))))))))))))))))))))))))))))))))))))))))))))))))))))))))))))))))))))))))))))))))))))))))))))))))))))))))))))))))))))))))))))))))))))))))))))))))))))))))))))))))))))))))))))))))))))))))))))))))))))))))))))))))))))))))))))))))))))))))))))))))))))))))))))))))))))))))))))))))))))))))))))))))))))))))))))))))))))))))))))))))))))))))))))))))))))))))))))))))))))))))))))))))))))))))))))))))))))))))))))))))))))))))))))))))))))))))))))))))))))))))))))))))))))))))))))))))))))))))))))))))))))))))))))))))))))))))))))))))))))))))))))))))))))))))))))))))))))))))))))))))))))))))))))))))))))))))))))))))))))))))))))))))))))))))))))))))))))))))))))))))))))))))))))))))))))))))))))))))))))))))))))))))))))))))))))))))))))))))))))))))))))))))))))))))))))))))))))))))))))))))))))))))))))))))))))))))))))))))))))))))))))))))))))))))))))))))))))))))))))))))))))))))))))))))))))))))))))))))))))))))))))))))))))))))))))))))))))))))))))))))))))))))))))))))))))))))))))))))))))))))))))))))))))))))))))))))))))))))))))))))))))))))))))))))))))))))))))))))))))))))))))))))))))))))))))))))))))))))))))))))))))))))))))))))))))))))))))))))))))))))))))))))))))))))))))))))))))))))))))))))))))))))))))))))))))))))))))))))))))))
+    XH)))) :: []))))))))))))))))))))))))))))))))))))))))))))))))))))))))))))))))))))))))))))))))))))))))))))))))))))))))))))))))))))))))))))))))))))))))))))))))))))))))))))))))))))))))))))))))))))))))))))))))))))))))))))))))))))))))))))))))))))))))))))))))))))))))))))))))))))))))))))))))))))))))))))))))))))))))))))))))))))))))))))))))))))))))))))))))))))))))))))))))))))))))))))))))))))))))))))))))))))))))))))))))))))))))))))))))))))))))))))))))))))))))))))))))))))))))))))))))))))))))))))))))))))))))))))))))))))))))))))))))))))))))))))))))))))))))))))))))))))))))))))))))))))))))))))))))))))))))))))))))))))))))))))))))))))))))))))))))))))))))))))))))))))))))))))))))))))))))))))))))))))))))))))))))))))))))))))))))))))))))))))))))))))))))))))))))))))))))))))))))))))))))))))))))))))))))))))))))))))))))))))))))))))))))))))))))))))))))))))))))))))))))))))))))))))))))))))))))))))))))))))))))))))))))))))))))))))))))))))))))))))))))))))))))))))))))))))))))))))))))))))))))))))))))))))))))))))))))))))))))))))))))))))))))))))))))))))))))))))))))))))))))))))))))))))))))))))))))))))))))))))))))))))))))))))))))))))))))))))))))))))))))))))))))))))))))))))))))))))))))))))))))))))))))))))))))))))))))))))))))))))))))))))))))))))))))))))))))))))))))))))))))))))))))))))))))))))))))))))))))))))))))))))))))))))))))))))))))))))))))))))))))))))))))))))))))))))))))))))))))))))))))))))))))))))))))))))))))))))))))))))))))))))))))))))))))))))))))))))))))))))))))))))))))))))))))))))))))))))))))))))))))))))))))))))))))))))))))))))))))))))))))))))))))))))))))))))))))))))))))))))))))))))))))))))))))))))))))))))))))))))))))))))))))))))))))))))))))))))))))))))))))))))))))))))))))))))))))))))))))))))))))))))))))))))))))))))))))))))))))))))))))))))))))))))))))))))))))))))))))))))))))))))))))))))))))))))))))))))))))))))))))))))))))))))))))))))))))))))))))))))))))))))))))))))))))))))))))))))))))))))))))))))))))))))))))))))))))))))))))))))))))))))))))))))))))))))))))))))))))))))))))))))))))))))))))))))))))))))))))))))))))))))))))))))))))))))))))))))))))))))))))))))))))))))))))))))))))))))))))))))))))))))))))))))))))))))))))))))))))))))))))))))))))))))))))))))))))))))))))))))))))))))))))))))))))))))))))))))))))))))))))))))))))))))))))))))))))))))))))))))))))))))))))))))))))))))))))))))))))))))))))))))))))))))))))))))))))))))))))))))))))))))))))))))))))))))))))))))))))))))))))))))))))))))))))))))))))))))))))))))))))))))))))))))))))))))))))))))))))))))))))))))))))))))))))))))))))))))))))))))))))))))))))))))))))))))))))))))))))))))))))))))))))))))))))))))))))))))))))))))))))))))))))))))))))))))))))))))))))))))))))))))))))))))))))))))))))))))))))))))))))))))))))))))))))))))))))))))))))))))))))))))))))))))))))))))))))))))))))))))))))))))))))))))))))))))))))))))))))))))))))))))))))))))))))))))))))))))))))))))))))))))))))))))))))))))))))))))))))))))))))))))))))))))))))))))))))))))))))))))))))))))))))))))))))))))))))))))))))))))))))))))))))))))))))))))))))))))))))))))))))
 
 (** val ph_names : n list list **)
 
@@ -6007,10 +6118,10 @@ let captured combined ws =
     (n list -> n list) -> bool -> bool option -> bool option -> wr list -> n
     list * n list **)
 
-let recorded strip_ansi0 combined keep strip ws =
+let recorded strip_ansi0 combined keep0 strip ws =
   let (o, e) = captured combined ws in
-  ((render_output strip_ansi0 keep strip o),
-  (render_output strip_ansi0 keep strip e))
+  ((render_output strip_ansi0 keep0 strip o),
+  (render_output strip_ansi0 keep0 strip e))
 
 (** val kind_names : (n list * nat) list **)
 
@@ -11263,6 +11374,116 @@ let read_one_liner s =
      | [] -> assemble l yempty
      | _ :: _ -> None)
   | None -> None
+
+(** val oeqb : ('a1 -> 'a1 -> bool) -> 'a1 option -> 'a1 option -> bool **)
+
+let oeqb eqb1 a b =
+  match a with
+  | Some x -> (match b with
+               | Some y -> eqb1 x y
+               | None -> false)
+  | None -> (match b with
+             | Some _ -> false
+             | None -> true)
+
+(** val pair_eqb : (n * n) -> (n * n) -> bool **)
+
+let pair_eqb a b =
+  (&&) (N.eqb (fst a) (fst b)) (N.eqb (snd a) (snd b))
+
+(** val wait_eqb :
+    ((n * n) * n list option) -> ((n * n) * n list option) -> bool **)
+
+let wait_eqb a b =
+  (&&) (pair_eqb (fst a) (fst b)) (oeqb text_eqb (snd a) (snd b))
+
+(** val env_get : n list -> (n list * n list) list -> n list option **)
+
+let rec env_get k = function
+| [] -> None
+| p :: r -> let (k', v) = p in if text_eqb k k' then Some v else env_get k r
+
+(** val env_eqb : (n list * n list) list -> (n list * n list) list -> bool **)
+
+let env_eqb a b =
+  forallb (fun kv -> oeqb text_eqb (env_get (fst kv) a) (env_get (fst kv) b))
+    (app a b)
+
+(** val keep :
+    ('a1 -> 'a1 -> bool) -> 'a1 option -> 'a1 option -> 'a1 option **)
+
+let keep eqb1 a b =
+  if oeqb eqb1 a b then None else a
+
+(** val ydiff : ycfg -> ycfg -> ycfg **)
+
+let ydiff c d =
+  { y_os = (keep N.eqb c.y_os d.y_os); y_kc = (keep eqb0 c.y_kc d.y_kc);
+    y_to = (keep pair_eqb c.y_to d.y_to); y_de = (keep eqb0 c.y_de d.y_de);
+    y_sk = (keep Z.eqb c.y_sk d.y_sk); y_sa = (keep eqb0 c.y_sa d.y_sa);
+    y_wa = (keep wait_eqb c.y_wa d.y_wa); y_env =
+    (if env_eqb c.y_env d.y_env
+     then []
+     else filter (fun kv ->
+            match env_get (fst kv) d.y_env with
+            | Some v -> text_eqb v (snd kv)
+            | None -> true) c.y_env) }
+
+(** val oor : 'a1 option -> 'a1 option -> 'a1 option **)
+
+let oor a b =
+  match a with
+  | Some _ -> a
+  | None -> b
+
+(** val ywith_defaults : ycfg -> ycfg -> ycfg **)
+
+let ywith_defaults s d =
+  { y_os = (oor s.y_os d.y_os); y_kc = (oor s.y_kc d.y_kc); y_to =
+    (oor s.y_to d.y_to); y_de = (oor s.y_de d.y_de); y_sk =
+    (oor s.y_sk d.y_sk); y_sa = (oor s.y_sa d.y_sa); y_wa =
+    (oor s.y_wa d.y_wa); y_env =
+    (app
+      (filter (fun kv ->
+        match env_get (fst kv) s.y_env with
+        | Some _ -> false
+        | None -> true) d.y_env) s.y_env) }
+
+(** val ycfg_is_empty : ycfg -> bool **)
+
+let ycfg_is_empty c =
+  match c.y_os with
+  | Some _ -> false
+  | None ->
+    (match c.y_kc with
+     | Some _ -> false
+     | None ->
+       (match c.y_to with
+        | Some _ -> false
+        | None ->
+          (match c.y_de with
+           | Some _ -> false
+           | None ->
+             (match c.y_sk with
+              | Some _ -> false
+              | None ->
+                (match c.y_sa with
+                 | Some _ -> false
+                 | None ->
+                   (match c.y_wa with
+                    | Some _ -> false
+                    | None ->
+                      (match c.y_env with
+                       | [] -> true
+                       | _ :: _ -> false)))))))
+
+(** val gen_config_suffix : ycfg -> ycfg -> n list **)
+
+let gen_config_suffix c d =
+  let x = ydiff c d in
+  if ycfg_is_empty x
+  then []
+  else (Npos (XO (XO (XO (XO (XO XH)))))) :: (one_liner x)
 
 (** val gen_cram_block :
     mode -> n list -> n list list -> n list list -> n -> block **)
